@@ -172,10 +172,8 @@ func NewAuthSession(addr, user, token string) (bus.Session, error) {
 		return nil, fmt.Errorf("contact server: %s", err)
 	}
 
-	s.serviceList, err = s.Directory.Services()
-	if err != nil {
-		return nil, fmt.Errorf("list services: %s", err)
-	}
+	// subscribe first, list afterwards: a service which becomes
+	// ready meanwhile is in the list or announced by a signal.
 	var cancelRemoved, cancelAdded func()
 	cancelRemoved, s.removed, err = s.Directory.SubscribeServiceRemoved()
 	if err != nil {
@@ -184,6 +182,10 @@ func NewAuthSession(addr, user, token string) (bus.Session, error) {
 	cancelAdded, s.added, err = s.Directory.SubscribeServiceAdded()
 	if err != nil {
 		return nil, fmt.Errorf("subscribe added signal: %s", err)
+	}
+	s.serviceList, err = s.Directory.Services()
+	if err != nil {
+		return nil, fmt.Errorf("list services: %s", err)
 	}
 	s.cancel = func() {
 		cancelRemoved()
